@@ -220,11 +220,15 @@ def w_files(cfg, tier):
     col.encoded(an.Analysis.find_files, an.Analysis.read_files, an.Analysis.__init__)
     rng = np.random.default_rng(7)
     sizes = [2, 3, 1][:npaths]
-    records, raw = [], {0.1: [0, 0], 0.2: [0, 0]}
+    # the third rate is the same number spelled with different last bits in different files (0.3 and
+    # 0.1 + 0.2 = 0.30000000000000004, as result archives of repeated runs contain): one (code, noise,
+    # decoder, error rate) group -- the pipeline identifies rates to six decimals
+    records, raw = [], {0.1: [0, 0], 0.2: [0, 0], 0.3: [0, 0]}
     for i, T in enumerate(sizes):
         recs = []
-        for rate in (0.1, 0.2):
-            e = mk_entry(T + (rate == 0.2), k, rate, 'x')
+        for rate in (0.1, 0.2, 0.3):
+            spelled = rate if (rate != 0.3 or i % 2 == 0) else 0.1 + 0.2
+            e = mk_entry(T + (rate == 0.2), k, spelled, 'x')
             n_t = T + (rate == 0.2)
             succ = [bool(rng.integers(0, 2)) for _ in range(n_t)]
             e['results']['success'] = succ
@@ -258,8 +262,13 @@ def w_files(cfg, tier):
                 paths = write_layout(root, kinds, order, records)
                 a = an.Analysis(paths if len(paths) > 1 else paths[0], verbose=False)
                 df = a.get_results()
-                got = {float(r_['error_rate']): (int(r_['n_trials']), int(r_['n_fail']), float(r_['p_est']))
-                       for _, r_ in df.iterrows()}
+                got = {}
+                for _, r_ in df.iterrows():
+                    key = round(float(r_['error_rate']), 6)
+                    if key in got:                      # two report rows for one rate: not pooled
+                        got[('duplicate', len(got))] = (int(r_['n_trials']), int(r_['n_fail']), float(r_['p_est']))
+                    else:
+                        got[key] = (int(r_['n_trials']), int(r_['n_fail']), float(r_['p_est']))
             finally:
                 shutil.rmtree(root, ignore_errors=True)
             return got
@@ -270,7 +279,7 @@ def w_files(cfg, tier):
             warm = bool(int(warm_v))
             got = hz.in_forked_child(lambda: analyse(kinds, order, warm))
             ok = all(rate in got and got[rate][0] == raw[rate][0] and got[rate][1] == raw[rate][1] and
-                     abs(got[rate][2] - raw[rate][1] / raw[rate][0]) < 1e-12 for rate in raw) and len(got) == 2
+                     abs(got[rate][2] - raw[rate][1] / raw[rate][0]) < 1e-12 for rate in raw) and len(got) == len(raw)
             return ok, dict(kinds=kinds, order=list(order), warm=warm, got={str(k_): v for k_, v in got.items()})
         ps = eng.explore(fn)
     col.absorb(eng)
